@@ -41,9 +41,14 @@ type SortTuple struct {
 
 // Flush does nothing
 func (r QuantityReporter) Flush() error {
-	sortable := make([]SortTuple, 0, len(r.accumulator))
-	for k, v := range r.accumulator {
-		sortable = append(sortable, SortTuple{k, v})
+	names := make([]string, 0, len(r.accumulator))
+	for k := range r.accumulator {
+		names = append(names, k)
+	}
+	sort.Strings(names)
+	sortable := make([]SortTuple, 0, len(names))
+	for _, k := range names {
+		sortable = append(sortable, SortTuple{k, r.accumulator[k]})
 	}
 
 	if r.descending {
